@@ -1023,8 +1023,14 @@ where
                         Ok(Started::Busy) => {
                             // Still being built by another process: holding
                             // neither a lock nor a token, look again soon.
+                            // (The token goes back while we wait, as it does
+                            // during a lock wait: whoever builds the
+                            // dependency may be waiting for one.)
                             locked.push_back((fid, t));
                             busy_again = true;
+                            if server.has_token() {
+                                server.release_mine()?;
+                            }
                             continue;
                         }
                         Err(e) if is_cyclic(&e) => return Err(e),
